@@ -136,3 +136,18 @@ Example nested_key_examples :
   set_resolve false nested_cfg no_json (nested_req (B "c")) = Err CInvalid /\
   (exists t, set_resolve false nested_cfg no_json (nested_req (B "b")) = Ok t).
 Proof. repeat split; try (vm_compute; reflexivity). eexists. vm_compute. reflexivity. Qed.
+
+(* ---------------- type/version overrides never make an unresolvable target acceptable: the entity must exist and be
+   Configurable whatever the extension says (the overrides only choose the model plugin) *)
+Definition override_req (t : str) : request :=
+  mkReq (path [] []) [] []
+        [ supd (B "t1") [el (B "sys"); el (B "name")] (B "x"); supd t [el (B "sys"); el (B "name")] (B "y") ]
+        [ ExtOverrides true [ (t, (B "devicesim", B "1.0.0")) ] ].
+
+Example override_examples :
+  set_resolve false (ex_cfg 0) no_json (override_req (B "ghost")) = Err CNotFound /\
+  set_resolve false (ex_cfg 0) no_json (override_req (B "t6")) = Err CInternal /\
+  (exists t, set_resolve false (ex_cfg 0) no_json (override_req (B "t5")) = Ok t) /\
+  set_resolve false (ex_cfg 0) no_json (mkReq (path (B "ghost") []) [] [] [ supd (B "t1") [el (B "sys"); el (B "name")] (B "x") ]
+                                              [ ExtOverrides true [ (B "ghost", (B "devicesim", B "1.0.0")) ] ]) = Err CNotFound.
+Proof. repeat split; try (vm_compute; reflexivity). eexists. vm_compute. reflexivity. Qed.
